@@ -27,6 +27,7 @@ MULTI = {"C01", "C02", "C06", "C08", "C09", "C11", "C12", "C13", "C15", "C18", "
 LONG = {"C01", "C06", "C08", "C09", "C11"}
 VOUCHER = {"C01", "C02", "C13", "C15", "C18", "C20"}
 EXTRA_TEXT = {
+ "C03": "msgseq also in blocks that carry a dust gas fee in the sold asset (masterchef's end-block conversion runs after the amm end-blocker, through the same pool).",
  "C04": "Every request, and every ordered pair, also with a failing second message in the first request's transaction (the queued request must vanish with the rolled-back transaction).",
  "C05": "Engine-G part: in-memory constant-product pool records of 2, 3 and 4 assets through the real pure methods Pool.JoinPool / Pool.ExitPool (full product of 7 weight vectors x 3 scales x every deposit asset and the all-asset form x 4 sizes); after join + exit of exactly the minted shares the weighted product of the reserves must not shrink.",
  "C06": "Chain upgrade op: the stablestake store migration registered for the previous consensus version, run the way an upgrade handler runs it.",
